@@ -13,6 +13,13 @@
 #include <verif/rsv.h>
 
 #include "rt_common.h"
+#ifdef RSV_E4
+#include "e4_api.h"
+#include "fakempi/mpi.h"
+#define LPS(rank) e4_lps(rank)
+#else
+#define LPS(rank) lps
+#endif
 
 #define TRACE_CAP 700000
 
@@ -81,14 +88,14 @@ static void ev_cb(const struct rsv_rec *r)
 				s->d = realloc(s->d, s->cap * sizeof *s->d);
 				s->frozen = realloc(s->frozen, s->cap);
 			}
-			const struct lp_ctx *lp = &lps[id];
+			const struct lp_ctx *lp = &LPS(r->rank)[id];
 			s->d[s->n] = lp_digest(lp);
 			s->frozen[s->n] = gm_CanEnd(id, lp->state_pointer);
 			s->n++;
 			break;
 		}
 		case RSV_EV_CKPT: {
-			uint64_t id = (const struct lp_ctx *)r->p - lps;
+			uint64_t id = (const struct lp_ctx *)r->p - LPS(r->rank);
 			if(id < GM_MAXLP && DS[id].nck < 512)
 				DS[id].ck[DS[id].nck++] = (unsigned)r->a;
 			break;
@@ -96,7 +103,7 @@ static void ev_cb(const struct rsv_rec *r)
 		case RSV_EV_ROLLBACK: {
 			if(r->thr >= 0 && r->thr < RSV_MAXT)
 				in_rollback[r->thr] = 1;
-			uint64_t id = (const struct lp_ctx *)r->p - lps;
+			uint64_t id = (const struct lp_ctx *)r->p - LPS(r->rank);
 			if(id >= GM_MAXLP)
 				return;
 			struct dstack *s = &DS[id];
@@ -127,7 +134,7 @@ static void ev_cb(const struct rsv_rec *r)
 			if(r->thr >= 0 && r->thr < RSV_MAXT)
 				in_rollback[r->thr] = 0;
 			const struct lp_ctx *lp = r->p;
-			uint64_t id = lp - lps;
+			uint64_t id = lp - LPS(r->rank);
 			if(id >= GM_MAXLP)
 				return;
 			struct dstack *s = &DS[id];
@@ -161,7 +168,7 @@ static void ev_cb(const struct rsv_rec *r)
 		}
 		case RSV_EV_FOSSIL_BEGIN: {
 			const struct lp_ctx *lp = r->p;
-			uint64_t id = lp - lps;
+			uint64_t id = lp - LPS(r->rank);
 			if(id >= GM_MAXLP)
 				return;
 			struct dstack *s = &DS[id];
@@ -207,6 +214,26 @@ void rt_oracles_begin(void)
 void rt_hang_classify(const char *why, const char *sig)
 {
 	struct rsv_result *res = RT.res;
+	/* signature of the listed cross-rank shutdown deadlock: a rank already waits in the node barrier of gvt_msg_drain()
+	 * (stage 2) while another rank still serves a GVT reduction in the first loop of gvt_msg_drain() (stage 1) */
+	int n = rsv_nthreads_created(), in_barrier_rank = -1, in_round_rank = -1;
+	for(int i = 1; i < n; i++) {
+		if(rsv_thread_done(i) || rsv_thread_rid(i) < 0)
+			continue;
+		if(rsv_last_stage(i) == 2)
+			in_barrier_rank = rsv_thread_rank(i);
+		if(rsv_last_stage(i) == 1)
+			in_round_rank = rsv_thread_rank(i);
+	}
+	const char *key = NULL;
+	if(RT.cfg.ranks > 1 && in_barrier_rank >= 0 && in_round_rank >= 0 && in_barrier_rank != in_round_rank)
+		key = "C08:drain:rank-in-node-barrier-while-reduction-pending";
+	if(key && rt_known(key)) {
+		res->verdict = RSV_KNOWN;
+		snprintf(res->known, sizeof res->known, "%s", key);
+		snprintf(res->msg, sizeof res->msg, "listed finding: %s (%s)", key, sig);
+		return;
+	}
 	if(strcmp(RT.prop, "C08")) {
 		/* belongs to C08; for the property being checked this run produced no result */
 		res->verdict = RSV_DISCARD;
@@ -214,14 +241,15 @@ void rt_hang_classify(const char *why, const char *sig)
 		snprintf(res->msg, sizeof res->msg, "run did not return (%s): %s", why, sig);
 		return;
 	}
-	rsv_fail(res, "C08", "RootsimRun did not return: %s after %llu scheduler steps; threads: %s", why, (unsigned long long)rsv_steps(), sig);
+	rsv_fail(res, "C08", "RootsimRun did not return: %s after %llu scheduler steps%s%s; threads: %s", why, (unsigned long long)rsv_steps(),
+	    key ? " [signature " : "", key ? key : "", sig);
 }
 
 /* ---- message ledger (C06) --------------------------------------------------------------------------------------- */
 struct ment {
 	const void *p;
 	int8_t queued;
-	uint8_t allocated, freed, in_hist, cancelled, sent, accounted, committed, xflags;
+	uint8_t allocated, freed, in_hist, cancelled, sent, accounted, committed, xflags, remote;
 	uint16_t nproc;
 	uint64_t dest;
 	double t;
@@ -251,8 +279,10 @@ static int same_ev(const struct ref_ev *e, const struct rsv_rec *r)
 	return !memcmp(&e->t, &r->m_t, sizeof(double)) && e->type == r->m_type && e->size == r->m_size && e->plhash == r->m_plhash;
 }
 
+static double last_max_gvt;
 static void walk_trace(void)
 {
+	last_max_gvt = 0;
 	struct rsv_result *res = RT.res;
 	const struct gm_spec *g = &gm_spec;
 	size_t n = rsv_trace_n();
@@ -372,11 +402,38 @@ static void walk_trace(void)
 						res->cls[K_ANTI_BEFORE_EXTRACT]++;
 				}
 				break;
+			case RSV_EV_REMOTE_RECV:
+				if(r->a)
+					res->cls[K_REMOTE_ANTI]++;
+				if(c06) {
+					e = mt_get(r->p, 1);
+					e->queued++;
+					e->dest = r->m_dest;
+					e->t = r->m_t;
+					e->remote = 1;
+				}
+				break;
+			case RSV_EV_SEND_REMOTE:
+				res->cls[K_REMOTE_SENT]++;
+				break;
+			case RSV_EV_EARLY_ANTI:
+				res->cls[K_EARLY_ANTI]++;
+				break;
+			case RSV_EV_EARLY_MATCH:
+				res->cls[K_EARLY_MATCH]++;
+				if(c06) {
+					e = mt_get(r->p, 1);
+					e->accounted = 1;
+				}
+				break;
+			case RSV_EV_REMOTE_ANTI:
+				res->cls[K_REMOTE_ANTI_MATCHED]++;
+				break;
 			case RSV_EV_ANTI_DROP:
 				if(c06) {
 					e = mt_get(r->p, 1);
 					e->accounted = 1;
-					if(!e->cancelled)
+					if(!e->cancelled && !e->remote)
 						rt_fail("C06", "message %p (LP %llu, t=%a) annihilated although its sender never cancelled it", r->p,
 						    (unsigned long long)r->m_dest, r->m_t);
 				}
@@ -526,6 +583,7 @@ static void walk_trace(void)
 					break;
 				}
 	}
+	last_max_gvt = max_gvt;
 	for(int th = 0; th < RSV_MAXT; th++)
 		free(gvts[th]);
 	free(MT);
@@ -978,6 +1036,19 @@ void rt_oracles_end(const char *stats_path)
 		check_serial();
 	} else {
 		walk_trace();
+#ifdef RSV_E4
+		{
+			struct fm_stats fs;
+			fm_get_stats(&fs);
+			res->cls[K_NET_DELAYED] = fs.delayed;
+			res->cls[K_NET_OVERTAKES] = fs.overtakes;
+			res->cls[K_NET_TEST_SKIPPED] = fs.test_skipped;
+			res->cls[K_NET_LEFTOVER] = fs.leftover;
+			if(fs.leftover && fs.leftover_min_t < last_max_gvt)
+				rt_fail("C04", "a remote message with timestamp %a was still in flight (never received) at shutdown, below the last GVT %a",
+				    fs.leftover_min_t, last_max_gvt);
+		}
+#endif
 		res->cls[K_RB_DIGESTS] = n_rb_digest;
 		res->cls[K_RB_AT_CKPT] = n_rb_at;
 		res->cls[K_RB_BETWEEN] = n_rb_between;
@@ -988,7 +1059,8 @@ void rt_oracles_end(const char *stats_path)
 		if(!rsv_trace_overflow())
 			for(size_t i = 0; i < n; i++) {
 				const struct rsv_rec *r = &rsv_trace[i];
-				if(r->kind == RSV_EV_PROCESS && r->a < g->n_lps && r->rid != gm_out.rep[r->a].init_rid) {
+				if(r->kind == RSV_EV_PROCESS && r->a < g->n_lps &&
+				    (r->rid != gm_out.rep[r->a].init_rid || r->rank != gm_out.rep[r->a].init_rank)) {
 					rt_fail("C14", "an event of LP %llu was processed by thread %d, the LP is owned by thread %d", (unsigned long long)r->a, r->rid,
 					    gm_out.rep[r->a].init_rid);
 					break;
@@ -1044,13 +1116,15 @@ void rt_oracles_end(const char *stats_path)
 		res->nontrivial = res->cls[K_TRUE_AT_INIT] || res->cls[K_TRUE_AT_T0] || res->cls[K_SPEC_TRUE_ROLLED_BACK];
 	else if(!strcmp(p, "C08"))
 		res->nontrivial = RT.cfg.n_threads >= 2 && g->n_lps >= 2 && (g->stop_lp >= 0 || RT.cfg.termination_time != 0 || RT.cfg.gvt_period <= 1);
+	else if(!strcmp(p, "C11"))
+		res->nontrivial = res->cls[K_ROLLBACKS] > 0 || (res->cls[K_BIG_PAYLOAD] > 0 && res->cls[K_LEFTOVER] > 0);
 	else if(!strcmp(p, "C09"))
 		res->nontrivial = res->cls[K_ROLLBACKS] > 0 && res->cls[K_LIB_DRAWS] > 0;
 	else if(!strcmp(p, "C20"))
 		res->nontrivial = res->cls[K_STATS_RECORDS] >= 2 && res->cls[K_ROLLBACKS] > 0;
 	else
 		res->nontrivial = res->cls[K_ROLLBACKS] > 0;
-	if(RT.cfg.stats && stats_path && stats_path[0]) {
+	if(RT.cfg.stats && RT.cfg.ranks <= 1 && stats_path && stats_path[0]) {
 		if(RT.cfg.serial)
 			check_stats_serial(stats_path);
 		else
